@@ -31,6 +31,12 @@ type c10Plan struct {
 	keys    map[string]bool // module|key installed for this peer's sessions
 	fseids  map[uint64]bool
 	ended   bool
+	// the peer comes back right after its release: its fresh Association Setup
+	// reaches the agent cbOff after the old connection's socket was closed
+	comeback, released, cameBack bool
+	cbOff                        time.Duration
+	cbSteps, cbN                 int
+	cbAt                         int64  // instant the old connection was closed
 }
 
 func scenarioC10(r *Run) {
@@ -62,6 +68,10 @@ func scenarioC10(r *Run) {
 		r.W.Bess.Faults.SlowDen, r.W.Bess.Faults.SlowBy = 6, 1200*time.Millisecond
 	case 3:
 		r.W.Bess.Faults.LatJit = 400 * time.Microsecond
+	case 4:
+		// some RPCs take tens of milliseconds: far below the join timeout, but
+		// teardowns now differ in duration
+		r.W.Bess.Faults.SlowDen, r.W.Bess.Faults.SlowBy = 4, 20*time.Millisecond
 	}
 	na := r.Ch.Choose(7, "nassoc")
 	if many {
@@ -208,9 +218,16 @@ func scenarioC10(r *Run) {
 		}
 		switch pl.trigger {
 		case "release":
+			if !many && r.Ch.Choose(3, "comeback") == 1 {
+				pl.comeback = true
+				pl.cbOff = []time.Duration{0, 0, 0, 0, 1, 1000, 3000, 10000, 40000}[r.Ch.Choose(9, "comeback-off")]
+				pl.cbSteps = r.Ch.Choose(8, "comeback-steps")
+				pl.cbN = 1 + r.Ch.Choose(4, "comeback-sessions")
+			}
 			r.Sim.At(t0+int64(off()), func() {
 				pl.p.SendMsg(message.NewAssociationReleaseRequest(pl.p.NextSeq(), ie.NewNodeID(pl.p.NodeID, "", "")))
 				r.Op("peer%d sends Association Release", pl.p.Idx)
+				pl.released = true
 				// a second trigger may follow closely: the peer also goes silent
 				pl.p.AnswerHeartbeats = false
 			})
@@ -256,6 +273,7 @@ func scenarioC10(r *Run) {
 			})
 		}
 		if r.Ch.Choose(8, "down") == 1 && pl.trigger != "none" {
+			pl.comeback = false // its answers would not get through: nothing to tell the new association's session by
 			r.Sim.At(t0-int64(readTimeout)/2, func() {
 				r.W.Net.SetDown(pl.p.Addr, true)
 				r.Fault("peer-unreachable-icmp")
@@ -263,15 +281,75 @@ func scenarioC10(r *Run) {
 			r.Sim.At(t0+int64(4*time.Second), func() { r.W.Net.SetDown(pl.p.Addr, false) })
 		}
 	}
+	// a released peer that is back at once: its fresh Association Setup arrives
+	// within nanoseconds to microseconds of the close of its old connection (the
+	// node may not have taken note of the old connection's exit yet), then it
+	// establishes a session on the new association
+	var stopAfterComeback time.Duration
+	var stopFn func()
+	r.W.Net.OnConnClose = func(local, remote string) {
+		if r.Sim.IncDead(inc) {
+			return
+		}
+		for _, pl := range plans {
+			pl := pl
+			if !pl.comeback || !pl.released || pl.cameBack || remote != pl.p.Addr {
+				continue
+			}
+			pl.cameBack = true
+			pl.cbAt = r.Sim.NowNS()
+			setup := Marshal(pl.p.AssocSetupMsg())
+			arrive := func() {
+				r.W.Net.Arrive(pl.p.Addr, pl.p.AgentAddr(), setup)
+				r.Op("peer%d is back: its Association Setup arrives %v / %d scheduling step(s) after the close of its old connection", pl.p.Idx, pl.cbOff, pl.cbSteps)
+				r.Probe("reassociation-right-after-release")
+			}
+			if pl.cbOff == 0 {
+				r.Sim.AfterSteps(pl.cbSteps, arrive)
+			} else {
+				r.Sim.After(pl.cbOff, arrive)
+			}
+			r.Sim.After(pl.cbOff+3*time.Millisecond, func() {
+				if r.Sim.IncDead(inc) {
+					return
+				}
+				pl.p.AnswerHeartbeats = true
+				for k := 0; k < pl.cbN; k++ {
+					pl.p.SendMsg(pl.p.EstablishMsg(g.SessionFixed(pl.p)))
+				}
+				if stopFn != nil {
+					r.Sim.After(stopAfterComeback, stopFn)
+				}
+			})
+		}
+	}
 	sort.Strings(trigDesc)
 	r.Skel(fmt.Sprintf("triggers=%v stop=%v faults=%d hb=%v", trigDesc, stop, faultMode, hbOn))
 	var stopAt int64
 	if stop {
 		stopAt = t0 + int64(off())
-		r.Sim.At(stopAt, func() {
+		anyComeback := false
+		for _, pl := range plans {
+			anyComeback = anyComeback || pl.comeback
+		}
+		stopped := false
+		sigterm := func() {
+			if stopped {
+				return
+			}
+			stopped = true
+			stopAt = r.Sim.NowNS()
 			n := r.W.Signal(inc, syscall.SIGTERM)
 			r.Op("SIGTERM delivered to the agent (%d handlers)", n)
-		})
+		}
+		if anyComeback && r.Ch.Choose(2, "stop-after-comeback") == 1 {
+			// the stop follows the first returned peer's new session (or comes 2 s
+			// after the instant when nobody returned)
+			stopAfterComeback = []time.Duration{time.Millisecond, 20 * time.Millisecond, 300 * time.Millisecond}[r.Ch.Choose(3, "stop-after")]
+			stopFn = sigterm
+			stopAt = t0 + int64(2*time.Second)
+		}
+		r.Sim.At(stopAt, sigterm)
 		if !many && r.Ch.Choose(2, "newcomer") == 1 {
 			// a peer the agent has never heard of sends its first datagram so that it
 			// reaches the listening socket around the instant of the stop: its
@@ -347,7 +425,7 @@ func scenarioC10(r *Run) {
 	// a slow RPC runs into the join timeout: the agent cancels the context and
 	// the remaining commands of that request are never sent (BESS errors are
 	// ignored by design) -- only the exactly-once half is judged then
-	slowBess := r.W.Bess.Fired["bess-slow"] > 0
+	slowBess := r.W.Bess.Fired["bess-slow"] > 0 && r.W.Bess.Faults.SlowBy >= time.Second
 	for _, c := range b.Cmds[cmdStart:] {
 		k := c.Module + "|" + c.Key
 		switch c.Cmd {
@@ -396,6 +474,27 @@ func scenarioC10(r *Run) {
 			if !pl.ended && !stop {
 				for f := range pl.fseids {
 					allowed[f] = true
+				}
+			}
+		}
+		// a session established on the new association of a peer that came back
+		for _, pl := range plans {
+			if !pl.cameBack || stop {
+				continue
+			}
+			for _, m := range pl.p.Rx {
+				if m.Err != nil {
+					continue
+				}
+				// (answers the agent sent after the old connection was gone: the session
+				// lives on the new association)
+				if er, ok := m.Msg.(*message.SessionEstablishmentResponse); ok && m.At >= pl.cbAt+int64(r.W.Net.FromAgent.LatMin) && er.UPFSEID != nil {
+					if c, _ := CauseOf(er); c == ie.CauseRequestAccepted {
+						if f, err := er.UPFSEID.FSEID(); err == nil {
+							allowed[f.SEID] = true
+							r.Probe("session-on-the-new-association-of-a-returned-peer")
+						}
+					}
 				}
 			}
 		}
